@@ -418,11 +418,16 @@ package dnsserver
 // DoH: the wire message is a freshly allocated slice (request body or decoded
 // query parameter).
 
+// C01: a query sent by POST is the whole request body - whatever way (and
+// whether) the client announced its length; only a body that cannot be read
+// to its end is refused.
 //@ func httpRequestToMsgPost
-//@   property C06
+//@   property C06 C01
 //@   requires req != nil && req.Body != nil
 //@   modifies stamped
 //@   ensures own-bytes-only: err == nil ==> off(b) + len(b) <= stamped[arr(b)]
+//@   ensures a-readable-body-is-the-query-whatever-its-announced-length: !bodyFails(req.Body) ==> err == nil && strof(b) == bodyBytes(req.Body)
+//@   ensures an-unreadable-body-is-refused: bodyFails(req.Body) ==> err != nil
 
 //@ func httpRequestToMsgGet
 //@   property C06
